@@ -64,11 +64,14 @@ func c06(r *core.Run) {
 	r.Rule("R3", "registration validation: add() panics on an invalid pattern before touching the trie and on a duplicate handler before storing, after the path parameters were validated; NewMux/Mount panic on invalid paths; Serve returns ValidateListeners' error before initialising", 6)
 	r.Rule("R4", "match assembly: node, mount index and params of the match record are written together at each accept site, the mount index stored is the one used to rebase that site's params; every Match literal takes Handler, Listeners and Group from the same node and Params from the match record", 6)
 
+	r.Rule("R5", "group tag resolution: the index stored for a ${tag} of a group template is the position of a token of the split pattern that is equal (whole-token string equality) to \"$\"+tag, found by a loop over the token list; a substring search would also hit a longer placeholder that merely starts with the tag ($id in $idx) or a literal token", 1)
+
 	root := p.FuncsOfPkg("")
 	ro := resolveMuxRoles(r)
 	if ro == nil {
 		return
 	}
+	c06GroupTags(r, root, ro)
 	mn := ro.matchNode
 	nodeNodes, nodeParam, nodeWild := ro.nodeNodes, ro.nodeParam, ro.nodeWild
 
@@ -711,4 +714,126 @@ func resolveMuxRolesFor(r *core.Run, roleRule string) *muxRoles {
 		return nil
 	}
 	return ro
+}
+
+// c06GroupTags is rule R5.
+func c06GroupTags(r *core.Run, root []*ssa.Function, ro *muxRoles) {
+	p := r.P
+	// equalTokenIndex: v is the counter of a loop that indexes a []string with it and
+	// the store at `at` is dominated by the true edge of <that element> == <string>
+	equalTokenIndex := func(v ssa.Value, at ssa.Instruction) (bool, string) {
+		// a loop counter: a phi, or phi+1 (go/ssa rotates range loops)
+		var fn *ssa.Function
+		switch x := v.(type) {
+		case *ssa.Phi:
+			fn = x.Parent()
+		case *ssa.BinOp:
+			if _, isPhi := x.X.(*ssa.Phi); isPhi && x.Op == token.ADD {
+				fn = x.Parent()
+			}
+		}
+		if fn == nil {
+			return false, valDesc(v) + " is not a loop counter over the pattern's tokens"
+		}
+		for _, b := range fn.Blocks {
+			for _, in := range b.Instrs {
+				ia, ok := in.(*ssa.IndexAddr)
+				if !ok || ia.Index != v {
+					continue
+				}
+				sl, isSl := ia.X.Type().Underlying().(*types.Slice)
+				if !isSl || types.TypeString(sl.Elem(), nil) != "string" {
+					continue
+				}
+				// the slice is the split pattern: the []string result of a call
+				if _, isCall := valueRoot(ia.X).(*ssa.Call); !isCall {
+					if _, isPrm := valueRoot(ia.X).(*ssa.Parameter); !isPrm {
+						continue
+					}
+				}
+				if ia.Referrers() == nil {
+					continue
+				}
+				for _, rf := range *ia.Referrers() {
+					ld, ok := rf.(*ssa.UnOp)
+					if !ok || ld.Referrers() == nil {
+						continue
+					}
+					for _, r2 := range *ld.Referrers() {
+						bo, ok := r2.(*ssa.BinOp)
+						if !ok || bo.Op != token.EQL {
+							continue
+						}
+						for _, ed := range dominatingEdges(at) {
+							if at.Parent() == fn && ed.If.Cond == ssa.Value(bo) && ed.Succ == 0 {
+								return true, ""
+							}
+						}
+						// the counter is returned from a helper on the equal edge
+						if at.Parent() != fn {
+							for _, ret := range core.Returns(fn) {
+								for _, ed := range dominatingEdges(ret) {
+									if ed.If.Cond == ssa.Value(bo) && ed.Succ == 0 {
+										for _, res := range ret.Results {
+											if res == v {
+												return true, ""
+											}
+										}
+									}
+								}
+							}
+						}
+					}
+				}
+			}
+		}
+		return false, "no whole-token equality test guards the index"
+	}
+	n := 0
+	for _, ac := range core.FieldAccesses(root, func(f core.Field) bool { return f == ro.gpIdx }) {
+		if ac.Kind != "store" {
+			continue
+		}
+		st := ac.Instr.(*ssa.Store)
+		if c, ok := st.Val.(*ssa.Const); ok && c.Value != nil && c.Value.ExactString() == "0" {
+			continue // zero value of a literal (string part)
+		}
+		n++
+		v := st.Val
+		if bo, ok := v.(*ssa.BinOp); ok && bo.Op == token.SUB {
+			v = bo.X // stored relative to the mount point
+		}
+		good, why := true, ""
+		nl := 0
+		for _, lf := range valueLeaves(v, nil, 0) {
+			if c, ok := lf.V.(*ssa.Const); ok && c.Value != nil {
+				continue // not-found sentinel of a helper
+			}
+			nl++
+			if ok, w := equalTokenIndex(lf.V, st); !ok {
+				good, why = false, w
+			}
+		}
+		r.Check(good && nl > 0, "R5", core.FuncName(ac.Fn), "group-tag-index=position-of-equal-token", p.InstrPos(st), "the tag is located by comparing whole tokens", "the token index stored for a group tag is not obtained by whole-token equality: "+why)
+	}
+	if n == 0 {
+		r.Bad("R5", "parseGroup", "stores-a-tag-index", "-", "no store of a group tag index found (rule went vacuous)")
+	}
+}
+
+// valueRoot strips slices, loads of local cells and conversions.
+func valueRoot(v ssa.Value) ssa.Value {
+	for i := 0; i < 6; i++ {
+		switch x := v.(type) {
+		case *ssa.Slice:
+			v = x.X
+		case *ssa.ChangeType:
+			v = x.X
+		case *ssa.Convert:
+			v = x.X
+		default:
+			return v
+		}
+	}
+	return v
 }
